@@ -659,7 +659,8 @@ class SymEval:
         if meth == "append" and len(args) == 1:
             new = cat(cur, ("list", (args[0],)))
         elif meth == "extend" and len(args) == 1:
-            new = cat(cur, args[0])
+            # (X.extend([c] * (K - len(X))) is the padding idiom: same normal form as X + [c] * (K - len(X)))
+            new = mk_bin("+", cur, args[0]) if (_listish(cur) and args[0][0] == "rep") else cat(cur, args[0])
         elif meth == "insert" and len(args) == 2 and is_const(args[0]) and isinstance(args[0][1], int):
             i = args[0][1]
             if cur[0] == "list" and 0 <= i <= len(cur[1]):
@@ -775,6 +776,14 @@ class SymEval:
         if isinstance(t, (ast.Tuple, ast.List)):
             self._bind_target(t, v)
             return
+        # X[0:0] = L  on a local / parameter list: L is spliced in at the front
+        if isinstance(t, ast.Subscript) and isinstance(t.value, ast.Name) and t.value.id in self.env and isinstance(t.slice, ast.Slice) \
+                and isinstance(t.slice.lower, ast.Constant) and t.slice.lower.value == 0 and isinstance(t.slice.upper, ast.Constant) \
+                and t.slice.upper.value == 0 and t.slice.step is None:
+            cur = self.env[t.value.id]
+            if (not is_heap_path(cur) or cur[0] == "p") and _listish(v):
+                self.env[t.value.id] = cat(v, cur)
+                return
         # element of a local, fresh list: data[i] = e
         if isinstance(t, ast.Subscript) and isinstance(t.value, ast.Name) and t.value.id in self.env:
             cur = self.env[t.value.id]
